@@ -186,9 +186,14 @@ impl SetSketchParams {
         //
         let loadfile = fileres.unwrap();
         let reader = BufReader::new(loadfile);
-        let hll_parameters: Self = serde_json::from_reader(reader).unwrap();
-        //
-        Ok(hll_parameters)
+        // a file cut short (crash during the dump) or otherwise damaged must be reported, not abort the caller
+        match serde_json::from_reader(reader) {
+            Ok(hll_parameters) => Ok(hll_parameters),
+            Err(e) => {
+                log::error!("SetSketchParams reload_json : could not parse file {:?} : {}", filepath.as_os_str(), e);
+                Err(format!("SetSketchParams reload_json could not parse file : {}", e))
+            }
+        }
     } // end of reload_json
 } // end of impl SetSketchParams
 
